@@ -1,4 +1,4 @@
-(* rect_io.solution_to_netlist on the sub-class it preserves, first part: designs
+(* rect_io.solution_to_netlist_found on the sub-class it preserves, first part: designs
    of soft modules given by area and centre (single ground-region area, no aspect
    ratio, no rectangles, not in the result) with nets of weight 1.  On this class
    the document is accepted back and gives the same modules and nets. *)
@@ -74,10 +74,10 @@ Theorem solution_netlist_rt_partial xs nets rects eps :
   nodup_str (map c_name xs) = true ->
   forallb (unit_net_ok (map c_name xs)) nets = true ->
   let n := mkNetlist (map cmodule xs) nets rects eps in
-  exists t n', solution_to_netlist n [] = Some t /\ read_netlist sqrt_o epsdef t = Ok n' /\
+  exists t n', solution_to_netlist_found n [] = Some t /\ read_netlist sqrt_o epsdef t = Ok n' /\
                nl_modules n' = nl_modules n /\ nl_nets n' = nl_nets n.
 Proof.
-  intros X N E n. unfold solution_to_netlist. cbn [nl_modules nl_nets n]. rewrite sol_modules_centred.
+  intros X N E n. unfold solution_to_netlist_found. cbn [nl_modules nl_nets n]. rewrite sol_modules_centred.
   eexists. eexists. split; [reflexivity|].
   set (ws := map (fun e => (n_members e, @None Qc)) nets).
   assert (W : map names_net nets = map edge_tree ws).
